@@ -407,7 +407,7 @@ for side, cf, il in (("left", "common_first_exon", "isoform_first_exon"), ("righ
              canary="len(result) == 1")
 
 
-@finite("C01.matching_presets", ["C01", "C13"], note="isoquant.set_matching_options for the four presets: delta = 0 / 4 / 6 / 12 as documented, "
+@finite("C01.matching_presets", ["C01", "C13", "C14"], note="isoquant.set_matching_options for the four presets: delta = 0 / 4 / 6 / 12 as documented, "
         "--delta (incl. --delta 0) overrides only delta, the terminal tolerances are 50 / 300 and apa_delta = 50 for every preset")
 def c01_presets(tier, rng):
     from contracts import pipeline_harness as H
